@@ -25,6 +25,10 @@ use std::panic::{catch_unwind, AssertUnwindSafe};
 use std::sync::atomic::{AtomicU64, Ordering};
 use std::sync::Arc;
 
+fn verif_root() -> String {
+    std::env::var("VERIF_ROOT").unwrap_or_else(|_| "/verif".to_string())
+}
+
 // ------------------------------------------------------------------ the simulated stdout
 
 struct LockState {
@@ -597,7 +601,7 @@ fn violation_class(msg: &str) -> &'static str {
 }
 
 fn shard(seed: u64, first: u64, last: u64, iters: usize, report: &str) -> i32 {
-    let dir = std::path::PathBuf::from(format!("/verif/target/shuttle-fail/{}", std::process::id()));
+    let dir = std::path::PathBuf::from(format!("{}/target/shuttle-fail/{}", verif_root(), std::process::id()));
     let orders_total = Arc::new(std::sync::Mutex::new(HashSet::new()));
     let mut distinct_orders = 0u64;
     let mut violation: Option<Value> = None;
@@ -702,12 +706,12 @@ fn parent(seed: u64, scenarios: u64, iters: usize, report: &str) -> i32 {
     let n = std::thread::available_parallelism().map(|n| n.get()).unwrap_or(4) as u64;
     let n = std::env::var("VERIF_WORKERS").ok().and_then(|v| v.parse().ok()).unwrap_or(n).max(1);
     let per = scenarios.div_ceil(n);
-    let _ = std::fs::create_dir_all("/verif/target/tmp");
+    let _ = std::fs::create_dir_all(format!("{}/target/tmp", verif_root()));
     let mut procs = Vec::new();
     for k in 0..n {
         let a = (k * per).min(scenarios);
         let b = ((k + 1) * per).min(scenarios);
-        let rp = format!("/verif/target/tmp/c19-shuttle-{}-{k}.json", std::process::id());
+        let rp = format!("{}/target/tmp/c19-shuttle-{}-{k}.json", verif_root(), std::process::id());
         let child = std::process::Command::new(&exe)
             .args(["shard", &seed.to_string(), &a.to_string(), &b.to_string(), &iters.to_string(), &rp])
             .stderr(std::process::Stdio::null())
